@@ -766,7 +766,8 @@ def oracle_fit_structure(mon, a0, b0, fl_rfi, fl_mef, out):
         # a power law with non-positive exponent diverges at zero: "zero at zero" is unsatisfiable there.
         # Degenerate fits are counted; the driver judges them where the pairs are ordered by brightness.
         mon.ctx.counters['fit_degenerate'] += 1
-        mon.last_fit_degenerate = True
+        # a finite fit with positive slope whose e^b is merely not representable is the oracle's limit, not the fit's
+        mon.last_fit_degenerate = 'unrepresentable' if (np.all(np.isfinite(params)) and params[0] > 0) else True
         return
     mon.last_fit_degenerate = False
     pos = a0[a0 > 0]
